@@ -264,11 +264,15 @@ Lemma slice_rows_g_spec n rsl : slice_rows_g n rsl = if sl_ok rsl then Some (sl_
 Proof. unfold slice_rows_g. rewrite gen_slice_to_list_spec. destruct (sl_ok rsl); reflexivity. Qed.
 
 (* ---------------------------------------------------------------- the assembled read *)
+(* the pairing of the two index vectors read off _convert_from_2d (np.broadcast_arrays) is the model's *)
+Lemma gen_c2_pairs_spec (rs cs : list Z) : gen_c2_pairs rs cs = bpairs rs cs.
+Proof. reflexivity. Qed.
+
 Lemma get_g_eq {A} (s : conc A) (i : idx) : col_step_ok i = true -> get_g s i = get_c s i.
 Proof.
   intros Hok. destruct i; cbn [get_g get_c col_step_ok] in *; try reflexivity.
   - rewrite gather_g_spec. reflexivity.
-  - rewrite gather_g_spec. reflexivity.
+  - rewrite gen_c2_pairs_spec. destruct (bpairs rs cs) as [ps|]; [|reflexivity]. rewrite gather_g_spec. reflexivity.
   - rewrite gather_g_spec. reflexivity.
   - rewrite gather_g_spec. reflexivity.
   - rewrite slice_rows_g_spec, Hok, andb_true_r. destruct (sl_ok rsl); [|reflexivity].
